@@ -249,7 +249,7 @@ impl<'a> Dfs<'a> {
 pub fn run(ctx: &Ctx) {
 	let key = crate::any_key();
 	let max_len = ctx.scale(6, 7) as usize;
-	let (max_len, cert_depth) = if cfg!(miri) { (3, 1) } else { (max_len, 3) };
+	let (max_len, cert_depth) = if cfg!(miri) { (2, 1) } else { (max_len, 3) };
 	let types = small_types();
 	let values = small_values();
 	let nops = types.len() * (values.len() + 1);
@@ -320,7 +320,7 @@ pub fn run(ctx: &Ctx) {
 
 	// --- random long histories
 	let types = big_types();
-	let n_random = if cfg!(miri) { 4 } else { ctx.scale(3000, 60000) };
+	let n_random = if cfg!(miri) { 3 } else { ctx.scale(3000, 60000) };
 	let do_random = ctx.replay.as_ref().map_or(true, |r| r.workload == "random");
 	if do_random {
 		par_for(n_random, if cfg!(miri) { 1 } else { ctx.threads }, |i| {
@@ -337,7 +337,7 @@ pub fn run(ctx: &Ctx) {
 					dn_value(k, &crate::spec::gen_text(&mut rng, k, 12))
 				})
 				.collect();
-			let len = if cfg!(miri) { 20 } else { 1 + rng.below(200) as usize };
+			let len = if cfg!(miri) { 12 } else { 1 + rng.below(200) as usize };
 			let ntypes = 2 + rng.below(types.len() as u64 - 1) as usize;
 			let mut dn = DistinguishedName::new();
 			let mut m: Model = Vec::new();
